@@ -117,6 +117,10 @@ EXPORT errno_t _ctime_s_chk(char *dest, rsize_t dmax, const time_t *timer,
     size_t len;
 
     CHK_DEST_NULL("ctime_s")
+    /* a runtime-constraint violation leaves an empty string (C11 K.3.8.2) */
+    if (likely(dmax > 0 && dmax <= RSIZE_MAX_STR)) {
+        *dest = '\0';
+    }
     if (unlikely(dmax < 26)) {
         invoke_safe_str_constraint_handler("ctime_s: dmax is too small", dest,
                                            ESLEMIN);
